@@ -3,7 +3,7 @@
    initial state. *)
 From Coq Require Import ZArith List Bool Lia Arith.
 Import ListNotations.
-Require Import SV.Common SV.C08.Stream SV.C07.Fds SV.C07.FdsProofs SV.C07.World.
+Require Import SV.Common SV.C08.Stream SV.C07.Fds SV.C07.FdsProofs SV.C07.Gen_facts SV.C07.World.
 
 (* with redirect_stderr a complete make_pipes creates the stdin and stdout
    pipes only: there is no stderr dispatcher *)
@@ -71,3 +71,18 @@ Example ex_reuse :
   p_disp (f_procs s 0) = [] /\ p_disp (f_procs s 1) = [(5, COut); (7, CErr); (4, CIn)] /\
   route s 3 5 = Some (1, COut).
 Proof. vm_compute. repeat split; reflexivity. Qed.
+
+(* the single read of drain() returns everything a pipe can hold (Linux default
+   capacity 64 KiB): nothing is left behind when finish() closes the pipes *)
+Theorem drain_reads_whole_pipe : forall b : bytes, (zlen b <= 65536)%Z ->
+  firstn (read_take readfd_size b) b = b /\ skipn (read_take readfd_size b) b = [].
+Proof.
+  intros b H. unfold read_take, readfd_size.
+  assert (E : Z.to_nat (Z.min (Z.min 131072 131072) (zlen b)) = length b).
+  { unfold zlen in *. lia. }
+  rewrite E. split; [apply firstn_all | apply skipn_all].
+Qed.
+
+(* finish() reads what is left in the pipes before the final flush *)
+Theorem finish_drains_before_flush : finish_drain_first = true.
+Proof. reflexivity. Qed.
